@@ -1036,6 +1036,43 @@ def run(tier: str) -> int:
                 rep.violation(f"one routine object in two programs of a process (order {order}, v{version} {okw}): the program in which the routine is the "
                               f"only user of the variable and nothing stores it gives {outcome_[0]} (required: {'accepted' if want == 'ok' else 'rejected, naming the load'})",
                               {"kind": "shared-routine", "order": order, "version": version, "options": okw, "outcome": list(outcome_)})
+    # ---- a routine first compiled inside Router.compile_program (the slot-id counter is rewound afterwards, the routine keeps its slots), then
+    # used by a program whose k-th fresh variable is read on a path that never wrote it: the variable may carry the id of one of the
+    # routine's slots; it is still a variable of ONE routine and the load must be refused
+    hist["after_router_programs"] = 0
+    for version in (6, 8):
+        for k in range(1, 9):
+            hv_ = pt.ScratchVar(pt.TealType.uint64)
+
+            def _helper(x):
+                return pt.Seq(hv_.store(x + pt.Int(1)), hv_.load())
+            helper = pt.Subroutine(pt.TealType.uint64, name="helper")(_helper)
+            router = pt.Router("c17", pt.BareCallActions(no_op=pt.OnCompleteAction.create_only(pt.Approve())))
+
+            def _m(a, *, output):
+                return output.set(helper(a.get()))
+            _m.__annotations__ = {"a": pt.abi.Uint64, "output": pt.abi.Uint64, "return": pt.Expr}
+            _m.__name__ = "m"
+            router.add_method_handler(pt.ABIReturnSubroutine(_m))
+            try:
+                router.compile_program(version=version)
+                vs_ = [pt.ScratchVar(pt.TealType.uint64) for _ in range(k)]
+                flag = vs_[-1]
+                prog_ = pt.Seq(*[x.store(pt.Int(i)) for i, x in enumerate(vs_[:-1])], pt.Pop(helper(pt.Int(3))),
+                               pt.If(pt.Txn.fee() > pt.Int(5)).Then(flag.store(pt.Int(7))), pt.Return(flag.load()))
+                hist["after_router_programs"] += 1
+                try:
+                    pt.compileTeal(prog_, pt.Mode.Application, version=version)
+                    got_ = "ok"
+                except pe.TealInternalError as e:
+                    c_ = e.__cause__
+                    got_ = "rbw" if isinstance(c_, pe.TealCompileError) and "load occurs before store" in c_.msg else "err " + str(e)[:150]
+            except Exception as e:  # noqa: BLE001
+                got_ = "err " + type(e).__name__ + ": " + str(e)[:150]
+            if got_ != "rbw":
+                rep.violation(f"after a Router compiled the routine `helper`, a program calling it whose variable no. {k} is loaded on a path that never stored it "
+                              f"gives {got_} (v{version}; required: rejected, naming the load)",
+                              {"kind": "after-router", "k": k, "version": version, "outcome": got_})
     d.close()
 
     if not proofs_ok:
